@@ -424,3 +424,27 @@ def sweep_records(c: Check, rule: str, prefixes, floor: int = 1) -> int:
                                  pn, r.attr, sorted(stored[r.attr]), pn), f.loc())
     c.floor(rule, 'record properties judged in %s' % (', '.join(prefixes)), judged, floor)
     return judged
+
+
+# ------------------------------------------------------------------ layers that map a sequence element by element
+
+def mapped_in_order(path, seq_val, sources, method: str) -> bool:
+    """seq_val is a literal sequence whose i-th element is the result of `<sources[i]>.<method>(...)` on this path"""
+    from .. import util
+    from ..absint import ListVal
+    items = seq_val.items if isinstance(seq_val, ListVal) else None
+    if items is None or len(items) != len(sources):
+        return False
+    for x, src in zip(items, sources):
+        xo = x.origin if isinstance(x, Sym) else None
+        if not (xo and xo[0] == 'call' and xo[5] is not None and isinstance(xo[4].func, ast.Attribute)
+                and xo[4].func.attr == method):
+            return False
+        ev = path.trace[xo[5]]
+        recv = ev.data.get('recv')
+        if recv is None:
+            cv = ev.data.get('callee_val')
+            recv = cv.origin[1] if isinstance(cv, Sym) and cv.origin and cv.origin[0] == 'attr' else None
+        if recv is not src:
+            return False
+    return True
